@@ -639,16 +639,16 @@ func TestVerifRace_C07_concurrent(t *testing.T) {
 			seeded := j.Len()
 			var sweeperDeletes atomic.Int64
 			j.Hook = func(e *vjds.Entry) error {
-				if e.Role != "" {
-					return nil
+				gc := e.Role == "" // the sweeper's context carries no role
+				if gc {
+					e.Role = "gc"
 				}
-				// the sweeper (its context carries no role). A query's snapshot is taken between
-				// this instant and its journal position: remember the journal length now.
-				e.Role = "gc"
-				switch e.Op {
-				case vjds.OpQuery:
-					e.Role = "gc@" + strconv.Itoa(j.Len())
-				case vjds.OpDelete:
+				switch {
+				case e.Op == vjds.OpQuery:
+					// a query's snapshot is taken between this instant and its journal position:
+					// remember the journal length now
+					e.Role += "@" + strconv.Itoa(j.Len())
+				case gc && e.Op == vjds.OpDelete:
 					sweeperDeletes.Add(1)
 					runtime.Gosched()
 				}
@@ -801,8 +801,8 @@ func TestVerifRace_C07_concurrent(t *testing.T) {
 
 			// ---- journal analysis
 			// Writes are journaled in effect order (under the datastore's lock). A query is
-			// journaled after its snapshot was taken, so the sweeper's snapshot lies between the
-			// journal length noted by the hook ("gc@<n>") and the query's own position. Stale
+			// journaled after its snapshot was taken, so the snapshot lies between the
+			// journal length noted by the hook ("<role>@<n>") and the query's own position. Stale
 			// (expired) values are only written by the pre-fill, so "the snapshot may have held
 			// the stale value of x" == "no put/delete of x before the snapshot window opened".
 			es := j.Entries()
@@ -814,14 +814,11 @@ func TestVerifRace_C07_concurrent(t *testing.T) {
 			dels := map[string][]delInfo{}
 			firstTouch := map[string]int{} // ds key -> index of the first put/delete after the pre-fill
 			winOpen := map[string]int{}    // role -> journal index at which its latest query's snapshot window opened
-			winPfx := map[string]string{}
 			sweeps, overlappedSweeps := 0, 0
 			sweepStart, sweepCounted := 0, false
 			roleOf := func(e vjds.Entry) string {
-				if strings.HasPrefix(e.Role, "gc") {
-					return "gc"
-				}
-				return e.Role
+				role, _, _ := strings.Cut(e.Role, "@")
+				return role
 			}
 			for i, e := range es {
 				if i < seeded || e.Err != "" {
@@ -834,13 +831,13 @@ func TestVerifRace_C07_concurrent(t *testing.T) {
 						firstTouch[e.Key] = i
 					}
 				case vjds.OpQuery:
-					open := i // callers' queries run under the manager's lock: no manager write can slip in
+					_, at, _ := strings.Cut(e.Role, "@")
+					open, _ := strconv.Atoi(at)
 					if role == "gc" {
-						open, _ = strconv.Atoi(strings.TrimPrefix(e.Role, "gc@"))
 						sweeps++
 						sweepStart, sweepCounted = open, false
 					}
-					winOpen[role], winPfx[role] = open, e.Key
+					winOpen[role] = open
 				case vjds.OpDelete:
 					open, queried := winOpen[role]
 					ft, touched := firstTouch[e.Key]
@@ -908,7 +905,7 @@ func TestVerifRace_C07_concurrent(t *testing.T) {
 				}
 				loaded := false
 				for i := op.jl0; i < op.jl1 && i < len(es); i++ {
-					if es[i].Op == vjds.OpQuery && es[i].Role == op.role {
+					if es[i].Op == vjds.OpQuery && roleOf(es[i]) == op.role {
 						loaded = true
 					}
 				}
